@@ -74,6 +74,10 @@ func parseDirect(src string) map[string]any {
 		}
 	} else {
 		res["has_err"] = false
+		if stmts != nil && len(src) < 4000 {
+			// the tree, for the comparison with the parser model's verdict and tree (long inputs: verdict only)
+			res["ast"] = newDumper().nodes(stmts)
+		}
 	}
 	return res
 }
